@@ -2,7 +2,7 @@
  * C06 barrier, C08 uncondition variable, C09 full/empty lock), selected with -DBND_PROP=4|5|6|8|9.
  *
  * Built with an 8-entry run queue (EXTRA_LIB_DEFS=-DMYTH_VERIF_QUEUE_SIZE=8).  A waker thread that KEEPS ITS WORKER (it spins
- * without yielding between the wake-up and the waiter's acknowledgement) wakes one waiter N times; every woken waiter
+ * without yielding between the wake-up and the waiter's acknowledgement) wakes N waiters one after the other (one thread per round, all alive until the end); every woken waiter
  * lands in the waker's run queue and has to be taken from there by the other worker, so the queue's window creeps up
  * by one entry per round and is re-centred after a handful of rounds.  Property clause exercised: a thread woken by
  * the primitive is resumed (exactly once), also when the wake-up pushes at the end of the queue storage.
@@ -20,105 +20,92 @@
 #endif
 
 typedef struct { int n, K; } prog_t;
-static const prog_t P[2][3] = { { { 7, 1 }, { 12, 0 }, { 12, 1 } }, { { 7, 2 }, { 12, 1 }, { 20, 1 } } };
+static const prog_t P[2][3] = { { { 7, 1 }, { 12, 0 }, { 14, 1 } }, { { 7, 2 }, { 14, 1 }, { 22, 1 } } };
 static int nprogs(int tier) { (void)tier; return 3; }
 static void config(int tier, int prog, int * W, int * K) { *W = 2; *K = P[tier][prog].K; }
 static void describe(int tier, int prog, char * b, size_t n) {
-  snprintf(b, n, "waker keeps its worker; %d wake-ups of one waiter across the boundary of an 8-entry run queue", P[tier][prog].n);
+  snprintf(b, n, "waker keeps its worker; %d wake-ups (one waiter thread each) across the boundary of an 8-entry run queue", P[tier][prog].n);
 }
 
 static const prog_t * cur;
-static volatile int ack, armed, sig, resumed_total;
-static myth_mutex_t m; static myth_cond_t cv; static myth_barrier_t bar; static myth_uncond_t un; static myth_felock_t fe;
-static volatile long slot;
+#define MAXN 24
+static volatile int ack, nready, sig, resumed_total;
+static myth_mutex_t m[MAXN + 1]; static myth_cond_t cv[MAXN + 1]; static myth_barrier_t bar[MAXN + 1]; static myth_uncond_t un[MAXN + 1]; static myth_felock_t fe[MAXN + 1];
+static volatile long slot[MAXN + 1];
 
-/* ---- the waiter's blocking step of round r and the waker's wake-up of round r, per primitive ---- */
+/* One waiter thread per round (all alive until the end, so that the entries the run queue has held are all different threads); waiter r
+   blocks once on resource r.  Per primitive: how waiter r blocks, how the waker knows that everybody is in place, how it wakes waiter r. */
 #if BND_PROP == 4
-/* the waker holds the mutex; the waiter blocks in lock; unlock wakes it */
-static void waker_prepare(int r) { (void)r; myth_mutex_lock(&m); mv_point(&armed, sizeof armed); armed = r; }
-static void waiter_block(int r) { while (armed < r) mv_spin_until_changed(&armed, sizeof armed); myth_mutex_lock(&m); myth_mutex_unlock(&m); }
-static int waiter_is_blocked(void) { return (m.state >> 1) != 0; }
-static const volatile void * blocked_word(void) { return &m.state; }
-#define BLOCKED_SZ sizeof m.state
-static void wake(int r) { (void)r; myth_mutex_unlock(&m); }
+/* the waker holds every mutex; waiter r blocks in lock(m[r]); unlock(m[r]) wakes it */
+static void waker_setup(int n) { for (int r = 1; r <= n; r++) myth_mutex_lock(&m[r]); }
+static void waiter_block(int r) { mv_point(&nready, sizeof nready); __sync_fetch_and_add(&nready, 1); myth_mutex_lock(&m[r]); myth_mutex_unlock(&m[r]); }
+static int all_in_place(int n) { if (nready < n) return 0; for (int r = 1; r <= n; r++) if ((m[r].state >> 1) == 0) return 0; return 1; }
+static void wake(int r) { myth_mutex_unlock(&m[r]); }
 #elif BND_PROP == 5
-static void waker_prepare(int r) { (void)r; }
-static void waiter_block(int r) { myth_mutex_lock(&m); mv_point(&armed, sizeof armed); armed = r; while (sig < r) myth_cond_wait(&cv, &m); myth_mutex_unlock(&m); }
-static int waiter_is_blocked(void) { return 1; }    /* decided under the mutex in wake() */
-static const volatile void * blocked_word(void) { return &armed; }
-static void wake(int r) {
-  while (armed < r) mv_spin_until_changed(&armed, sizeof armed);
-  myth_mutex_lock(&m);          /* the waiter set armed under the mutex and released it only by waiting */
-  sig = r; myth_cond_signal(&cv);
-  myth_mutex_unlock(&m);
-}
+static void waker_setup(int n) { (void)n; }
+static void waiter_block(int r) { myth_mutex_lock(&m[0]); mv_point(&nready, sizeof nready); nready++; while (sig < r) myth_cond_wait(&cv[r], &m[0]); myth_mutex_unlock(&m[0]); }
+static int all_in_place(int n) { return nready == n; }    /* counted under the mutex, which a waiter gives up only by waiting */
+static void wake(int r) { myth_mutex_lock(&m[0]); sig = r; myth_cond_signal(&cv[r]); myth_mutex_unlock(&m[0]); }
 #elif BND_PROP == 6
-/* two participants; the waiter arrives first and blocks, the waker arrives last and releases it */
-static void waker_prepare(int r) { (void)r; }
-static void waiter_block(int r) { mv_point(&armed, sizeof armed); armed = r; myth_barrier_wait(&bar); }
-static int waiter_is_blocked(void) { return 1; }
-static const volatile void * blocked_word(void) { return &armed; }
-static void wake(int r) {
-  while (armed < r) mv_spin_until_changed(&armed, sizeof armed);
-  myth_barrier_wait(&bar);      /* whoever is last wakes the other; if the waiter has not blocked yet the waker blocks instead */
-}
+/* barrier r has two participants: waiter r arrives first and blocks, the waker arrives last and releases it */
+static void waker_setup(int n) { (void)n; }
+static void waiter_block(int r) { mv_point(&nready, sizeof nready); __sync_fetch_and_add(&nready, 1); myth_barrier_wait(&bar[r]); }
+static int all_in_place(int n) { return nready == n; }
+static void wake(int r) { myth_barrier_wait(&bar[r]); }
 #elif BND_PROP == 8
 /* documented protocol: the waiter announces itself with a CAS, then waits; the signaler signals only after it saw the announcement */
-static void waker_prepare(int r) { (void)r; }
-static void waiter_block(int r) { mv_point(&slot, sizeof slot); long ok = __sync_bool_compare_and_swap(&slot, 0, r); MV_CHECK(ok, "harness: slot busy"); myth_uncond_wait(&un); }
-static int waiter_is_blocked(void) { return 1; }
-static const volatile void * blocked_word(void) { return &slot; }
-static void wake(int r) {
-  while (slot != r) mv_spin_until_changed(&slot, sizeof slot);
-  mv_point(&slot, sizeof slot); slot = 0;
-  myth_uncond_signal(&un);
-}
+static void waker_setup(int n) { (void)n; }
+static void waiter_block(int r) { mv_point(&nready, sizeof nready); __sync_fetch_and_add(&nready, 1); mv_point(&slot[r], sizeof slot[r]); long ok = __sync_bool_compare_and_swap(&slot[r], 0, 1); MV_CHECK(ok, "harness: slot busy"); myth_uncond_wait(&un[r]); }
+static int all_in_place(int n) { if (nready < n) return 0; for (int r = 1; r <= n; r++) if (!slot[r]) return 0; return 1; }
+static void wake(int r) { mv_point(&slot[r], sizeof slot[r]); slot[r] = 0; myth_uncond_signal(&un[r]); }
 #elif BND_PROP == 9
-/* the waiter waits for status 1; the waker publishes it; the waiter then resets the status to 0 */
-static void waker_prepare(int r) { (void)r; }
-static void waiter_block(int r) { mv_point(&armed, sizeof armed); armed = r; myth_felock_wait_and_lock(&fe, 1); myth_felock_mark_and_signal(&fe, 0); }
-static int waiter_is_blocked(void) { return 1; }
-static const volatile void * blocked_word(void) { return &armed; }
-static void wake(int r) {
-  while (armed < r) mv_spin_until_changed(&armed, sizeof armed);
-  myth_felock_wait_and_lock(&fe, 0); myth_felock_mark_and_signal(&fe, 1);
-}
+/* waiter r waits for status 1 of cell r; the waker publishes it */
+static void waker_setup(int n) { (void)n; }
+static void waiter_block(int r) { mv_point(&nready, sizeof nready); __sync_fetch_and_add(&nready, 1); myth_felock_wait_and_lock(&fe[r], 1); myth_felock_mark_and_signal(&fe[r], 0); }
+static int all_in_place(int n) { return nready == n; }
+static void wake(int r) { myth_felock_wait_and_lock(&fe[r], 0); myth_felock_mark_and_signal(&fe[r], 1); }
 #else
 #error "BND_PROP must be 4, 5, 6, 8 or 9"
 #endif
 
-#ifndef BLOCKED_SZ
-#define BLOCKED_SZ sizeof(int)
-#endif
+static volatile int woke[MAXN + 1], setup_done;
 static void * waiter(void * a) {
-  (void)a;
-  for (int r = 1; r <= cur->n; r++) {
-    waiter_block(r);
-    resumed_total++;
-    mv_point(&ack, sizeof ack); ack = r;
-  }
-  return (void *)1;
+  int r = (int)(long)a;
+  waiter_block(r);
+  MV_CHECK(woke[r] == 1, "waiter %d resumed although its wake-up had not been issued (woken in place of another thread?)", r);
+  resumed_total++;
+  mv_point(&ack, sizeof ack); __sync_fetch_and_add(&ack, 1);
+  return (void *)(long)(100 + r);
 }
 static void * waker(void * a) {
   (void)a;
-  for (int r = 1; r <= cur->n; r++) {
-    waker_prepare(r);
-    while (!waiter_is_blocked()) mv_spin_until_changed(blocked_word(), BLOCKED_SZ);
-    wake(r);
-    while (ack < r) mv_spin_until_changed(&ack, sizeof ack);      /* keeps the worker: the woken waiter has to be taken by the other one */
+  int n = cur->n;
+  waker_setup(n);
+  mv_point(&setup_done, sizeof setup_done); setup_done = 1;
+  while (nready < n) mv_wait_until_changed(&nready, sizeof nready);     /* the waiters are still being created: let them run */
+  while (!all_in_place(n)) myth_yield();                                 /* the last one is between its announcement and its blocking step */
+  /* two wake-ups back to back, so that the second push finds the first woken thread still queued (also when that push re-centres the
+     storage), then keep the worker until both have run somewhere else */
+  for (int r = 1; r <= n; r += 2) {
+    for (int k = r; k <= r + 1 && k <= n; k++) { mv_point(&woke[k], sizeof woke[k]); woke[k] = 1; wake(k); }
+    int want = r + 1 <= n ? r + 1 : n;
+    while (ack < want) mv_spin_until_changed(&ack, sizeof ack);
   }
   return (void *)2;
 }
 static void run(int tier, int prog) {
   cur = &P[tier][prog];
+  int n = cur->n;
   mv_start(2);
-  myth_mutex_init(&m, 0); myth_cond_init(&cv, 0); myth_barrier_init(&bar, 0, 2); myth_uncond_init(&un); myth_felock_init(&fe, 0);
-  myth_thread_t tw = myth_create(waker, 0), tt = myth_create(waiter, 0);
-  void * r1 = 0, * r2 = 0;
-  myth_join(tw, &r1); myth_join(tt, &r2);
-  MV_CHECK(r1 == (void *)2 && r2 == (void *)1, "join values %p %p", r1, r2);
-  MV_CHECK(ack == cur->n && resumed_total == cur->n, "%d of %d wake-ups reached the waiter", resumed_total, cur->n);
-  mv_obs("rounds=%d main on w%d", cur->n, mv_worker());
+  for (int r = 0; r <= n; r++) { myth_mutex_init(&m[r], 0); myth_cond_init(&cv[r], 0); myth_barrier_init(&bar[r], 0, 2); myth_uncond_init(&un[r]); myth_felock_init(&fe[r], 0); }
+  myth_thread_t tw = myth_create(waker, 0), tt[MAXN + 1];
+  while (!setup_done) mv_wait_until_changed(&setup_done, sizeof setup_done);
+  for (int r = 1; r <= n; r++) tt[r] = myth_create(waiter, (void *)(long)r);
+  void * r1 = 0;
+  myth_join(tw, &r1); MV_CHECK(r1 == (void *)2, "join value of the waker %p", r1);
+  for (int r = 1; r <= n; r++) { void * rr = 0; myth_join(tt[r], &rr); MV_CHECK((long)rr == 100 + r, "join value of waiter %d: %ld", r, (long)rr); }
+  MV_CHECK(ack == n && resumed_total == n, "%d of %d wake-ups reached their waiter", resumed_total, n);
+  mv_obs("rounds=%d main on w%d", n, mv_worker());
   mv_finish();
 }
 static uint64_t cover_required(int tier) { (void)tier; return 0; }
